@@ -53,6 +53,13 @@ func (c20) Exec(c Case) []string {
 			} else {
 				obs = append(obs, hx(out)+" "+hx(h)+" "+hx(p))
 			}
+		case "split":
+			h, p, err := net.SplitHostPort(unhx(op[1]))
+			if err != nil {
+				obs = append(obs, "err")
+			} else {
+				obs = append(obs, "ok "+hx(h)+" "+hx(p))
+			}
 		case "transport":
 			addr := unhx(op[2])
 			if op[1] == "client" {
@@ -106,6 +113,34 @@ func (c20) Generate(rng *rand.Rand, tier string, st *Stats) []Case {
 		}
 	}
 	ports = append(ports, "05222", "000", "99999999")
+	// net.SplitHostPort itself (the model of it is what C20_dialable is stated over): every short string over the
+	// structural alphabet, plus random longer ones
+	alphaS := []byte("[]:a%1")
+	var recS func(prefix []byte, depth int)
+	recS = func(prefix []byte, depth int) {
+		add("split", hx(string(prefix)))
+		st.Inc("split_exhaustive")
+		if depth == 0 {
+			return
+		}
+		for _, c := range alphaS {
+			recS(append(append([]byte(nil), prefix...), c), depth-1)
+		}
+	}
+	depthS := 4
+	if tier == "thorough" {
+		depthS = 6
+	}
+	recS(nil, depthS)
+	for i := 0; i < 600; i++ {
+		ln := 1 + rng.Intn(24)
+		b := make([]byte, ln)
+		for j := range b {
+			b[j] = "[]::%.abc019"[rng.Intn(12)]
+		}
+		add("split", hx(string(b)))
+		st.Inc("split_random")
+	}
 	for _, h := range plain {
 		add("form", "plain", hx(h), "~")
 		st.Inc("form_plain")
